@@ -36,7 +36,8 @@ pub fn check(c: &mut Case, files: &Files, plan: &ArcPlan) {
             c.nontrivial(fp(files, plan));
         }
     }
-    let r = match c.lib("arc::from_bytes", || arc::from_bytes(&img)) {
+    let img_t = crate::monitor::tight(&img);
+    let r = match c.lib("arc::from_bytes", || arc::from_bytes(&img_t)) {
         None => return,
         Some(r) => r,
     };
